@@ -1543,15 +1543,19 @@ def abs_doc_violation(line, impl):
     top, bottom, height = dim(st[2], cb_h), dim(st[3], cb_h), dim(st[5], cb_h)
     ml, mr, mt, mb = (dim(st[k], cb_w) for k in (6, 7, 8, 9))
     x, y, mw, mh, uw, uh, uml, umr, umt, umb = (F(v) for v in sx.loads_line(impl))
-    has_minmax = any(st[k] != 'auto' for k in (18, 19, 20, 21))
-    # a negative solved size is clamped to 0 and the equation becomes over-constrained: no claim
+    # min-width / max-width re-run absolute_width with the clamped width: the horizontal equation holds for the
+    # used values whatever they are (theorem abs_block_equation_h); min-height / max-height are applied after
+    # absolute_height and nothing is solved again (known finding abs-height-min-max-not-resolved)
+    has_minmax_w = any(st[k] != 'auto' for k in (18, 19))
+    has_minmax = any(st[k] != 'auto' for k in (20, 21))
+    # a negative solved size is clamped to 0 and the equation is solved again with that size
     clamped_w = width is None and uw == 0
     clamped_h = height is None and uh == 0
     # a replaced box whose offsets and margins are all specified ignores right (ltr) / left (rtl) / bottom, as
     # CSS 2.1 §10.3.8 / §10.6.5 say; a block re-solves its end margin, so its equation always holds
     repl = args[0] == 'absrepldoc'
     # horizontal
-    if not has_minmax and not clamped_w:
+    if True:
         over = None not in (left, right, width, ml, mr)
         if left is not None and not (repl and over and not ltr) and x != cb_x + left:
             return f'left: margin box starts at {x}, containing block starts at {cb_x}, left is {left}'
@@ -1560,7 +1564,8 @@ def abs_doc_violation(line, impl):
                     f'left + margins + borders + paddings + width + right != width of the containing block')
         if left is None and right is None and ltr and x != sx0:
             return f'left and right auto: box at {x}, static position {sx0}'
-        if ml is not None and not over and None in (left, right, width) and uml != ml:
+        if (ml is not None and not over and None in (left, right, width) and not has_minmax_w and not clamped_w
+                and uml != ml):
             return f'specified margin-left {ml} became {uml}'
     # vertical
     over_v = None not in (top, bottom, height, mt, mb)
@@ -1745,7 +1750,17 @@ def finding_fixed_fragmented():
     return sorted(found) != [(0, 304), (1, 304)]
 
 
+def finding_abs_height_minmax():
+    """top:0; bottom:0; height:200px; max-height:100px; margin:auto 0 in a 300px-high relative container: the 100px
+    box must be centred (border box 100..200 below the container's top), as it is with height:100px."""
+    box = _box('<div style="position:relative;width:100px;height:300px">'
+               '<div id="a" style="position:absolute;top:0;bottom:0;width:50px;height:200px;max-height:100px;'
+               'margin:auto 0"></div></div>', 'a')
+    return box is None or (box.border_box_y(), box.border_height()) != (20 + 100, 100)
+
+
 FINDING_REPLAYS = {
+    'abs-height-min-max-not-resolved': finding_abs_height_minmax,
     'fixed-box-fragmented-on-own-page': finding_fixed_fragmented,
     'tall-line-aligned-in-strut-band': finding_tall_line,
     'abs-cb-height-before-min-max': finding_cb_height_before_min_max,
